@@ -51,6 +51,13 @@ pub trait AuthenticationProtocol {
 for e in ("Negotiate", "MajorVersion", "MinorVersion", "NTLMRevision"):
     A(Item(NTLM, "enum", e, mod="ntlm"))
 A(Item(NTLM, "enum", "AvId", mod="ntlm", strip_derive=["TryFromPrimitive", "Hash", "Debug"], try_from="u16"))
+# `av_id == AvId::MsvAvEOL` calls the derived PartialEq of a field-less enum: structural (same declaration as for PDUType / ErrorCode in the other units)
+A(Raw(r"""
+impl vstd::std_specs::cmp::PartialEqSpecImpl for AvId {
+    open spec fn obeys_eq_spec() -> bool { true }
+    open spec fn eq_spec(&self, other: &Self) -> bool { *self == *other }
+}
+""", mod="ntlm", name="avid_eq", trusted="derived PartialEq of a field-less enum is equality of the variants"))
 A(Raw(r"""
 // ---------------- primitives (external crates md4 / md-5 / hmac: uninterpreted, no collision or one-wayness axiom is assumed)
 pub uninterp spec fn md4_spec(data: Seq<u8>) -> Seq<u8>;
@@ -632,7 +639,10 @@ F("message_signature_ex", ret="c", props=["C16", "C04", "C07", "C01"], fuel=5,
       ("C16,C04,C01", "view", "c.mv() == signature_view(%s, %s)" % (SUM8, SEQ)),
       ("C16,C04,C01", "bytes", "ser(c.mv()) =~= le32(1) + %s + le32(%s)" % (SUM8, SEQ))],
   post="proof { let f = c.fields(); assert(f[1].1->Bytes_0 =~= %s); assert(f =~= signature_view(%s, %s)->Comp_0); }" % (SUM8, SUM8, SEQ))
-F("read_target_info", props=["C07"], nloops=1,
+F("read_target_info", props=["C07", "C15"], nloops=1,
+  # MS-NLMP 2.2.2.1: the AV_PAIR list ends at MsvAvEOL: the walk stops only there (every exit of the loop), and a pair that is not EOL is recorded
+  claims=[(r"break;", 0, "proof { assert(av_id is MsvAvEOL); }", "before", "C15,C07", "walk-stops-only-at-MsvAvEOL"),
+          (r"result\.insert\(av_id,", 1, "proof { assert(!(av_id is MsvAvEOL)); }", "before", "C15,C07", "eol-is-not-recorded")],
   loops={1: "invariant stream.rest().len() <= data@.len(), values_bounded(&result, data@.len() as int)\n decreases stream.rest().len()"},
   ensures=[("C07", "values-inside-the-input", "r is Ok ==> values_bounded(&r->Ok_0, data@.len() as int)")],
   hints=[(r"element\.read\(&mut stream\)\?;", 1, """proof { lemma_av_pair_min(); lemma_keys();
